@@ -17,6 +17,7 @@ import (
 	"fmt"
 	"io"
 	"net/http"
+	"runtime"
 	"sort"
 	"strings"
 	"sync"
@@ -182,6 +183,24 @@ func genC02(r *vh.Rand, idx int) c02Spec {
 		dup := c02Msg{Raw: fmt.Sprintf(`{"jsonrpc":"2.0","id":%s,"method":"ping"}`, id), ID: id, Class: "dup-inflight"}
 		s.Payloads = append(s.Payloads, c02Payload{GapMs: 1, Msgs: []c02Msg{slow}}, c02Payload{GapMs: 2, Msgs: []c02Msg{dup}, DupOf: id})
 	}
+	// a batch of fresh ids plus a duplicate of an in-flight id; afterwards the fresh ids are used on their own:
+	// whatever happened to the batch, ids that were never accepted must still be usable
+	if batchOK && r.Chance(1, 20) {
+		x, a, b := g.freshID(), g.freshID(), g.freshID()
+		slow := c02Msg{Raw: fmt.Sprintf(`{"jsonrpc":"2.0","id":%s,"method":"tools/call","params":{"name":"echo","arguments":{"nonce":88888,"delay":30}}}`, x), ID: x, Class: "call-ok"}
+		ping := func(id, class string) c02Msg {
+			return c02Msg{Raw: fmt.Sprintf(`{"jsonrpc":"2.0","id":%s,"method":"ping"}`, id), ID: id, Class: class}
+		}
+		members := []c02Msg{ping(a, "call-ok"), ping(b, "call-ok"), ping(x, "dup-inflight")}
+		if r.Bool() {
+			members[0], members[2] = members[2], members[0]
+		}
+		s.Payloads = append(s.Payloads,
+			c02Payload{GapMs: 1, Msgs: []c02Msg{slow}},
+			c02Payload{GapMs: 2, Batch: true, Msgs: members, DupOf: x},
+			c02Payload{GapMs: 60, Msgs: []c02Msg{ping(a, "call-ok")}},
+			c02Payload{GapMs: 1, Msgs: []c02Msg{ping(b, "call-ok")}})
+	}
 	return s
 }
 
@@ -229,6 +248,31 @@ func c02Server() *mcp.Server {
 	})
 	return s
 }
+
+// chunkWriter forwards each Write as several smaller writes and yields in
+// between. It has no state of its own, so it is safe for concurrent use, but
+// it does not make concurrent writes atomic.
+type chunkWriter struct {
+	w io.WriteCloser
+	n int
+}
+
+func (cw *chunkWriter) Write(p []byte) (int, error) {
+	total := 0
+	for len(p) > 0 {
+		k := min(cw.n, len(p))
+		n, err := cw.w.Write(p[:k])
+		total += n
+		if err != nil {
+			return total, err
+		}
+		p = p[k:]
+		runtime.Gosched()
+	}
+	return total, nil
+}
+
+func (cw *chunkWriter) Close() error { return cw.w.Close() }
 
 type c02Collector struct {
 	mu    sync.Mutex
@@ -325,7 +369,10 @@ func runC02(c *vh.Case, spec c02Spec) ([]c02Resp, map[int]int) {
 	case "stdio":
 		cr, sw := io.Pipe() // server -> harness
 		sr, cw := io.Pipe() // harness -> server
-		ss, err := server.Connect(ctx, &mcp.IOTransport{Reader: sr, Writer: sw}, nil)
+		// The server's writer splits every Write into small chunks (as a framing or
+		// compressing wrapper would): messages stay intact only if the SDK serialises
+		// whole-message writes itself.
+		ss, err := server.Connect(ctx, &mcp.IOTransport{Reader: sr, Writer: &chunkWriter{w: sw, n: 1 + c.Index%13}}, nil)
 		if err != nil {
 			c.Inconclusive("connect: %v", err)
 			return nil, nil
@@ -494,7 +541,7 @@ func decideC02(c *vh.Case, spec c02Spec, resps []c02Resp, stat map[int]int) {
 	var sig strings.Builder
 	sig.WriteString(spec.Transport + ":")
 	rejects, calls, batches := 0, 0, 0
-	dupKey := ""
+	dupKeys := map[string]bool{}
 	for i, p := range spec.Payloads {
 		if st, ok := stat[i]; ok && isHTTP {
 			if st >= 500 || st < 0 {
@@ -520,8 +567,8 @@ func decideC02(c *vh.Case, spec c02Spec, resps []c02Resp, stat map[int]int) {
 			calls++
 			id := canonID(json.RawMessage(m.ID))
 			wants[id] = append(wants[id], want{m.Class, m.Want, i})
-			if p.DupOf != "" {
-				dupKey = id
+			if p.DupOf != "" && m.ID == p.DupOf {
+				dupKeys[id] = true
 			}
 		}
 		if p.Batch {
@@ -538,7 +585,7 @@ func decideC02(c *vh.Case, spec c02Spec, resps []c02Resp, stat map[int]int) {
 	delete(got, "s:final-ping")
 	if len(fp) != 1 || !fp[0].OK {
 		key := "connection-unusable"
-		if dupKey != "" {
+		if len(dupKeys) > 0 {
 			key = "dup-inflight-id/" + spec.Transport + "/connection-unusable"
 		}
 		c.Violate(key, "final ping (fresh id) got %d response(s) %v: the connection did not stay usable", len(fp), fp)
@@ -572,7 +619,7 @@ func decideC02(c *vh.Case, spec c02Spec, resps []c02Resp, stat map[int]int) {
 			}
 			expect = append(expect, w)
 		}
-		if id == dupKey {
+		if dupKeys[id] {
 			if len(rs) != len(ws) {
 				c.Violate("dup-inflight-id/"+spec.Transport, "id %s was carried by %d requests (second one sent while the first was in flight) but %d response(s) bear it", id, len(ws), len(rs))
 				return
